@@ -81,3 +81,43 @@ func ZZVerif_C14_L1Info() {
 		zzverif.Assert("still halted: queries refuse", isInc(e))
 	}
 }
+
+// ZZVerif_C14_L1InfoFailedReorg: the L1 info syncer is halted (mismatching announcement in block 3); a reorg from block RB is
+// attempted while deletes on table T fail. The reorg reports the error, removes nothing and the syncer stays halted; once the
+// fault is gone the same reorg succeeds and clears the condition.
+func ZZVerif_C14_L1InfoFailedReorg() {
+	ctx := context.Background()
+	rb := uint64(zzverif.Param("RB"))
+	table := []string{"block", "l1_info_root", "rollup_exit_root"}[zzverif.Param("T")]
+	p := zzNewProcessor(zzverif.TempDB("l1info"))
+	var prevExit common.Hash
+	for n := uint64(1); n <= 2; n++ {
+		up := &UpdateL1InfoTree{MainnetExitRoot: zzverif.Hash("mer"), RollupExitRoot: zzverif.Hash("rer"), ParentHash: zzverif.Hash("parent"), Timestamp: zzverif.U64("ts") >> 2}
+		vb := &VerifyBatches{BlockPosition: 1, RollupID: 1, NumBatch: n, StateRoot: zzverif.Hash("stateRoot"), ExitRoot: zzverif.Hash("exitRoot"), Aggregator: zzverif.Addr("aggregator")}
+		zzverif.Assume(vb.ExitRoot != (common.Hash{}) && vb.ExitRoot != prevExit) // a new exit root: the rollup exit tree gets a root in this block
+		prevExit = vb.ExitRoot
+		zzverif.Assume(p.ProcessBlock(ctx, sync.Block{Num: n, Hash: zzverif.Hash("bh"), Events: []interface{}{Event{UpdateL1InfoTree: up}, Event{VerifyBatches: vb}}}) == nil)
+	}
+	root, err := p.l1InfoTree.GetLastRoot(nil)
+	zzverif.Assert("root", err == nil)
+	ev := &UpdateL1InfoTreeV2{CurrentL1InfoRoot: zzverif.Hash("annRoot"), LeafCount: 2}
+	zzverif.Assume(ev.CurrentL1InfoRoot != root.Hash)
+	err = p.ProcessBlock(ctx, sync.Block{Num: 3, Hash: zzverif.Hash("bh"), Events: []interface{}{Event{UpdateL1InfoTreeV2: ev}}})
+	zzverif.Assert("halted", errors.Is(err, sync.ErrInconsistentState) && p.isHalted())
+	zzverif.FailDelete(p.db, table)
+	err = p.Reorg(ctx, rb)
+	zzverif.ClearFaults(p.db, table)
+	zzverif.Assert("a reorg whose deletes fail reports the error", err != nil)
+	zzverif.Assert("failed reorg: still halted", p.isHalted())
+	lp, err := p.GetLastProcessedBlock(ctx)
+	zzverif.Assert("failed reorg: no block removed", err == nil && lp == 2)
+	s := &L1InfoTreeSync{processor: p}
+	_, e := s.GetLastInfo()
+	zzverif.Assert("failed reorg: queries still refuse", errors.Is(e, sync.ErrInconsistentState))
+	zzverif.Assert("halted: blocks still refused", errors.Is(p.ProcessBlock(ctx, sync.Block{Num: 3}), sync.ErrInconsistentState))
+	zzverif.Assert("reorg without the fault succeeds", p.Reorg(ctx, rb) == nil)
+	zzverif.Assert("and clears the condition", !p.isHalted())
+	lp, err = p.GetLastProcessedBlock(ctx)
+	zzverif.Assert("and removes the blocks", err == nil && lp == rb-1)
+	zzverif.Reach("end")
+}
